@@ -152,6 +152,38 @@ class State:
         self.x.feas_secs += time.time() - t
         return r != z3.unsat
 
+    def unique_value(self, e):
+        """if the z3 Int expression e can only take one value on this path, return it (else None)"""
+        e = simp(e)
+        if z3.is_int_value(e):
+            return e.as_long()
+        # only worth two solver calls when some path fact pins e by an equation (hybrid case enumeration)
+        pinned = False
+        for c in self.pc:
+            if z3.is_eq(c) and (z3.eq(c.arg(0), e) or z3.eq(c.arg(1), e)):
+                pinned = True
+                break
+        if not pinned:
+            return None
+        cache = self.ghost.setdefault('unique_cache', {})
+        key = (e.get_id(), len(self.pc))
+        if key in cache:
+            return cache[key]
+        res = None
+        self.solver.push()
+        try:
+            if guarded_check(self.solver, self.x.feas_timeout_ms) == z3.sat:
+                v = self.solver.model().eval(e, model_completion=True)
+                if z3.is_int_value(v):
+                    self.solver.add(e != v)
+                    if guarded_check(self.solver, self.x.feas_timeout_ms) == z3.unsat:
+                        res = v.as_long()
+        finally:
+            self.solver.pop()
+        self.x.feas_queries += 2
+        cache[key] = res
+        return res
+
     def branch(self, cond, label=""):
         """decide a symbolic condition; returns the direction taken on this path"""
         if isinstance(cond, SV):
